@@ -139,9 +139,26 @@ func Worker(c *Ctx, ck *Check, shard, n, from int, out io.Writer) {
 		}
 	}
 	last := time.Now()
+	var deadline int64
+	if d := os.Getenv("VERIF_DEADLINE_UNIX"); d != "" {
+		deadline, _ = strconv.ParseInt(d, 10, 64)
+	}
 	for idx := from; idx < total; idx++ {
 		if idx%n != shard {
 			continue
+		}
+		if deadline > 0 && time.Now().Unix() > deadline {
+			// overall time budget of this run is used up: the remaining cases of this shard are not run;
+			// the coordinator reports the run as not exhaustive (exit code unaffected)
+			left := int64(0)
+			for j := idx; j < total; j++ {
+				if j%n == shard {
+					left++
+				}
+			}
+			rec.Add("cases_not_run_time_budget", left)
+			rec.Note(fmt.Sprintf("time budget reached: cases from index %d on of shard %d not run", idx, shard))
+			break
 		}
 		fmt.Fprintf(w, "B %d\n", idx)
 		w.Flush()
@@ -227,6 +244,16 @@ func Coordinate(c *Ctx, ck *Check) int {
 			timeout = 40 * time.Minute // safety net only; thorough cases (delay 3 + S-dpor on one program) can take minutes
 		}
 	}
+	// overall time budget (VERIF_BUDGET_S; default 25 min quick, 3 h thorough): when it is used up the workers stop
+	// taking new cases and the run ends with exhaustive=false; a budget is never a verdict
+	budget := int64(1500)
+	if c.Thorough() {
+		budget = 3 * 3600
+	}
+	if b, err := strconv.ParseInt(os.Getenv("VERIF_BUDGET_S"), 10, 64); err == nil && b > 0 {
+		budget = b
+	}
+	deadline := start.Unix() + budget
 	var wg sync.WaitGroup
 	for sh := 0; sh < nw; sh++ {
 		wg.Add(1)
@@ -242,7 +269,7 @@ func Coordinate(c *Ctx, ck *Check) int {
 					args = append(args, "-x", k+"="+v)
 				}
 				cmd := exec.Command(self, args...)
-				cmd.Env = append(os.Environ(), "GOMAXPROCS=2", "GOTRACEBACK=single")
+				cmd.Env = append(os.Environ(), "GOMAXPROCS=2", "GOTRACEBACK=single", "VERIF_DEADLINE_UNIX="+strconv.FormatInt(deadline, 10))
 				stdout, _ := cmd.StdoutPipe()
 				var errBuf strings.Builder
 				cmd.Stderr = &limitedWriter{w: &errBuf, n: 1 << 16}
@@ -385,7 +412,8 @@ func Coordinate(c *Ctx, ck *Check) int {
 	if _, ok := cov["evaluations"]; !ok {
 		cov["evaluations"] = int64(total)
 	}
-	capped := agg.Counters["capped"] > 0 || inconclusive > 0
+	capped := agg.Counters["capped"] > 0 || inconclusive > 0 || agg.Counters["cases_not_run_time_budget"] > 0
+	cov["time_budget_s"] = budget
 	cov["exhaustive"] = !capped
 	delete(cov, "capped")
 	cov["capped_cases"] = agg.Counters["capped"]
